@@ -121,7 +121,7 @@ def run_unit(name, tier, seed):
         raise Undecided('overlay of unit %s places admit/assume inside a repository item (op %d)' % (name, bad[0][0]))
     flags = list(getattr(u, 'VERUS_FLAGS', []))
     mods = getattr(u, 'VERIFY_MODULES', None)
-    r = run_verus(path, flags=flags, modules=mods, seed=seed or None, timeout=getattr(u, 'TIMEOUT', 300))
+    r = run_verus(path, flags=flags, modules=mods, seed=seed or None, rlimit=getattr(u, 'RLIMIT', 60), timeout=getattr(u, 'TIMEOUT', 900))
     res = r['result']
     if res is None:
         raise Undecided('unit %s: verus produced no result (rc %s): %s' % (name, r['rc'], r['stderr'][-400:]))
